@@ -124,3 +124,29 @@ def sibling_weights_permuted(rnd, spec):
     else:
         return None
     return {"cands": list(spec["cands"]), "ballots": [dict(b, w=w) for b, w in zip(spec["ballots"], p)]}
+
+
+def sibling_candidates_changed(rnd, spec, cfg):
+    """same ballots, in the same order with the same weights; only the candidate LIST differs: a candidate nobody voted
+    for is added (or, if there is one, dropped), or the list is reordered.  Returns (spec, cfg) with seat numbers clamped."""
+    cs = list(spec["cands"])
+    voted = {c for b in spec["ballots"] for g in (b.get("r") or []) for c in g} | {c for b in spec["ballots"] for c in (b.get("s") or {})}
+    unvoted = [c for c in cs if c not in voted]
+    t = rnd.random()
+    if unvoted and t < 0.4 and len(cs) > 1:
+        cs.remove(rnd.choice(unvoted))
+    elif t < 0.8:
+        new = next(x for x in ("Zed", "Zed2", "nobody") if x not in cs)
+        cs.insert(rnd.randrange(len(cs) + 1), new)
+    else:
+        if len(cs) < 2:
+            return None
+        cs = cs[1:] + cs[:1]
+    n = len(cs)
+    cfg2 = dict(cfg)
+    for k in ("m", "m_1"):
+        if k in cfg2 and isinstance(cfg2[k], int):
+            cfg2[k] = max(1, min(cfg2[k], n))
+    if "m_2" in cfg2:
+        cfg2["m_2"] = max(1, min(cfg2["m_2"], cfg2.get("m_1", n)))
+    return {"cands": cs, "ballots": [dict(b) for b in spec["ballots"]]}, cfg2
